@@ -13,9 +13,11 @@
    Q1 "every history of namespace/CRD additions and   | all coverage theorems quantify over every list of insights
        removals"                                      | (run_adjust hs); insights from cluster events: namespaces in full
                                                       | (C19_namespace_insights), kinds via _update_resources
-                                                      | (C19_update_resources, selectors = oracle); the later filters of
-                                                      | revise_resources (ambiguous / unsuitable kinds) NOT COVERED by proof,
-                                                      | monitored only (whole-operator scenarios, connection-table)
+                                                      | (C19_update_resources) and _disable_unsuitable_resources
+                                                      | (C19_disable_unsuitable, C19_readonly_stays_served,
+                                                      | C19_readonly_dropped_iff; F1902 fixed), selectors = oracle; the ambiguity filter of
+                                                      | revise_resources NOT COVERED by proof, monitored only (whole-operator
+                                                      | scenarios, connection-table)
    S1 "exactly one watch per served pair"             | FULL: C19_served_pairs_watched (at least one), C19_no_duplicate_task
                                                       | (at most one). "active" = key in the task map; a watcher task that DIED
                                                       | (F10, property C20) stays in the map: liveness of the task is monitored
@@ -192,6 +194,50 @@ Example C19_update_resources_hypotheses_satisfiable :
   gres_same (update_resources (Some "a.dev"%string) [x; z] [y]) [y; z] = true.
 Proof. exact update_resources_hypotheses. Qed.
 Print Assumptions C19_update_resources_hypotheses_satisfiable.
+
+(* observation._disable_unsuitable_resources (as repaired by 4448d18, finding F1902): what stays served after the verbs check.
+   `nowatch` / `nopatch` = resources lacking list-or-watch / patch; `psel` = resources selected by a state-storing handler
+   (create/update/delete/resume, timer, daemon) *)
+Theorem C19_disable_unsuitable : forall rs nowatch nopatch psel x,
+  In x (disable_unsuitable rs nowatch nopatch psel) <->
+  In x rs /\ ~ In x nowatch /\ ~ (In x nopatch /\ In x psel).
+Proof. exact disable_unsuitable_spec. Qed.
+Print Assumptions C19_disable_unsuitable.
+
+(* a read-only kind with only event / index handlers stays served whatever else the operator handles *)
+Theorem C19_readonly_stays_served : forall rs nowatch nopatch psel x,
+  In x rs -> ~ In x nowatch -> ~ In x psel -> In x (disable_unsuitable rs nowatch nopatch psel).
+Proof. exact readonly_stays_served. Qed.
+Print Assumptions C19_readonly_stays_served.
+
+(* a listable/watchable kind without `patch` is dropped iff a state-storing handler selects THAT kind *)
+Theorem C19_readonly_dropped_iff : forall rs nowatch nopatch psel x,
+  In x rs -> ~ In x nowatch -> In x nopatch ->
+  (~ In x (disable_unsuitable rs nowatch nopatch psel) <-> In x psel).
+Proof. exact readonly_dropped_iff. Qed.
+Print Assumptions C19_readonly_dropped_iff.
+
+(* what must not change: nothing is added; a kind with all three verbs always stays *)
+Theorem C19_disable_unsuitable_frame : forall rs nowatch nopatch psel x,
+  (In x (disable_unsuitable rs nowatch nopatch psel) -> In x rs) /\
+  (In x rs -> ~ In x nowatch -> ~ In x nopatch -> In x (disable_unsuitable rs nowatch nopatch psel)).
+Proof. exact disable_unsuitable_frame. Qed.
+Print Assumptions C19_disable_unsuitable_frame.
+
+Example C19_readonly_hypotheses_satisfiable :
+  let x := ("a.dev"%string, r_cluster) in let y := ("a.dev"%string, r_spaced) in
+  In x [x; y] /\ ~ In x [] /\ In x [x; y] /\ ~ In x [y] /\ In y [y] /\
+  disable_unsuitable [x; y] [] [x; y] [y] = [x].
+Proof. exact readonly_hypotheses. Qed.
+Print Assumptions C19_readonly_hypotheses_satisfiable.
+
+(* regression example of F1902 (the former corner R): two read-only kinds, x with event handlers only, y with a state-storing
+   handler: only y is dropped; before 4448d18 the first result was [] *)
+Example C19_readonly_corner :
+  let x := ("a.dev"%string, r_cluster) in let y := ("a.dev"%string, r_spaced) in
+  disable_unsuitable [x; y] [] [x; y] [y] = [x] /\ disable_unsuitable [x; y] [] [x] [y] = [x; y].
+Proof. exact readonly_regression. Qed.
+Print Assumptions C19_readonly_corner.
 
 (* ======================= the conflict toggles: paused only by a CURRENT peering ======================= *)
 
